@@ -72,6 +72,8 @@ class Folder:
             x = self.ev(t[1], env, bind, depth)
             if x[0] == "ref":
                 return x[1]
+            if x[0] == "const":
+                return x
             raise Unknown("deref " + pp(t))
         if k == "field":
             x = self.ev(t[1], env, bind, depth)
@@ -158,10 +160,25 @@ class Folder:
             return _c(r)
         if k == "call":
             name = t[1]
+            if isinstance(name, str) and name in STD_MODELS:
+                args = [self.ev(a, env, bind, depth) for a in t[2]]
+                return STD_MODELS[name](self, args)
             if isinstance(name, str) and self.prog.has(name) and depth < self.max_depth:
                 args = [self.ev(a, env, bind, depth) for a in t[2]]
                 return self.call(name, args, depth + 1)
             raise Unknown("call " + str(name))
+        if k == "upd":
+            base = self.ev(t[1], env, bind, depth)
+            if t[2] == "*":
+                if base[0] != "ref":
+                    raise Unknown("upd through non-ref")
+                # the inner term is written in terms of ('deref', original base): evaluate it as the new referent
+                return ("ref", self.ev(t[3], env, bind, depth))
+            if isinstance(t[2], tuple) and t[2][0] == "f" and base[0] == "agg":
+                fs = list(base[4])
+                fs[t[2][1]] = self.ev(t[3], env, bind, depth)
+                return base[:4] + (tuple(fs),) + base[5:]
+            raise Unknown("upd " + pp(t))
         if k == "index":
             base = self.ev(t[1], env, bind, depth)
             idx = self.ev(t[2], env, bind, depth) if t[2][0] != "local" else None
@@ -197,6 +214,69 @@ class Folder:
                     raise Unknown("path ends in %s in %s" % (p.end[0], fpath))
                 return self.ev(p.ret, env, bind, depth)
         raise Unknown("no path taken in " + fpath)
+
+
+def _ints(args):
+    out = []
+    for a in args:
+        while a[0] == "ref":
+            a = a[1]
+        if not _isc(a):
+            raise Unknown("std model on non-constant")
+        out.append(int(a[1]))
+    return out
+
+
+def _u(bits, f):
+    return lambda self, args: _c(f(_ints(args)[0], bits))
+
+
+def _tz(v, bits):
+    if v == 0:
+        return bits
+    return (v & -v).bit_length() - 1
+
+
+def _opt(some, payload=None):
+    if some:
+        return ("agg", "adt", "std::option::Option", "Some", (payload,), 1)
+    return ("agg", "adt", "std::option::Option", "None", (), 0)
+
+
+def _checked(op):
+    def f(self, args, ty):
+        a, b = _ints(args)
+        r = op(a, b)
+        lo, hi = INT_RANGE[ty]
+        return _opt(lo <= r <= hi, _c(r))
+    return f
+
+
+def _expect(self, args):
+    a = args[0]
+    if a[0] == "agg" and a[3] in ("Some", "Ok"):
+        return a[4][0]
+    raise Unknown("unwrap/expect of a non-Some value")
+
+
+STD_MODELS = {
+    "std::option::Option::<T>::expect": _expect,
+    "std::option::Option::<T>::unwrap": _expect,
+    "std::result::Result::<T, E>::unwrap": _expect,
+    "std::result::Result::<T, E>::expect": _expect,
+}
+for _b in (8, 16, 32, 64):
+    for _s in ("u", "i"):
+        _t = "%s%d" % (_s, _b)
+        _p = "core::num::<impl %s>::" % _t
+        STD_MODELS[_p + "trailing_zeros"] = _u(_b, lambda v, bits: _tz(v % (1 << bits), bits))
+        STD_MODELS[_p + "leading_zeros"] = _u(_b, lambda v, bits: bits - (v % (1 << bits)).bit_length())
+        STD_MODELS[_p + "count_ones"] = _u(_b, lambda v, bits: bin(v % (1 << bits)).count("1"))
+        STD_MODELS[_p + "rem_euclid"] = lambda self, args: _c(_ints(args)[0] % abs(_ints(args)[1]))
+        STD_MODELS[_p + "div_euclid"] = lambda self, args: _c((_ints(args)[0] - _ints(args)[0] % abs(_ints(args)[1])) // _ints(args)[1])
+        STD_MODELS[_p + "checked_add"] = (lambda ty: lambda self, args: _checked(lambda a, b: a + b)(self, args, ty))(_t)
+        STD_MODELS[_p + "checked_sub"] = (lambda ty: lambda self, args: _checked(lambda a, b: a - b)(self, args, ty))(_t)
+        STD_MODELS[_p + "checked_mul"] = (lambda ty: lambda self, args: _checked(lambda a, b: a * b)(self, args, ty))(_t)
 
 
 def show(v):
